@@ -311,6 +311,29 @@ class _Common:
     def count(self, x):
         raise Unsupported("bytes.count on symbolic bytes")
 
+    def find(self, sub, start=0, end=None):
+        """first position of `sub` (bytes-like or a single int); every candidate position is a branch"""
+        pat = [sub] if isinstance(sub, int) or hasattr(sub, "t") else (_items_of(sub) if _items_of(sub) is not None else list(sub))
+        n = len(self._items)
+        a, b, _ = slice(start, end).indices(n)
+        if not pat:
+            return a if a <= b else -1
+        for i in range(a, b - len(pat) + 1):
+            ok = True
+            for j, p in enumerate(pat):
+                if not bool(self._items[i + j] == p):      # symbolic comparison: forks
+                    ok = False
+                    break
+            if ok:
+                return i
+        return -1
+
+    def index(self, sub, start=0, end=None):
+        i = self.find(sub, start, end)
+        if i < 0:
+            raise ValueError("subsection not found")
+        return i
+
     def __repr__(self):
         return "%s(%s)" % (type(self).__name__, self.hex())
 
